@@ -199,4 +199,57 @@ theorem exOdd_run :
       some ([(8, 10), (7, 9)], [], [(1, 7), (0, 9), (2, 10)], 11, 8) := by
   rfl
 
+/-! ## the same source of function type passed twice (model change 4) -/
+
+/-- `(A ** A) ** A` -/
+def tFA : Term := .app FUN [tAA, tA]
+/-- `(A ** A) ** (A ** A) ** A` -/
+def tFFA : Term := .app FUN [tAA, tFA]
+/-- a source of function type -/
+def exS : TExpr := .src 3 none tAA
+/-- `k s s`: the source `s : A ** A` is passed to `k` as an operation, twice -/
+def exRep : TExpr := .app (.app (.op "k" tFFA) exS tFA) exS tA
+
+/-- nodes: 0 = `k s s`, 1 = `s` (once), internal nodes 2 (first argument) and 4 (second argument; 3 was
+reserved for the second `s` and not used). Edges: `1 → 2`, `0 → 1`, `1 → 4`, `0 → 1` again, `2 → 1` (the
+first internal node receives the second argument), and `4 → 1`: the second internal node receives
+the first argument, which is its own argument's node — the edge that the `repeated` rule adds. -/
+theorem exRep_run :
+    summary (addExpr exG exCfg (.res "w") none {} exRep none false) =
+      some ([(4, 1), (2, 1), (0, 1), (1, 4), (0, 1), (1, 2)], [(0, 2), (0, 4)], [(3, 1)], 5, 0) := by
+  rfl
+
+theorem exRep_args : ∀ a ∈ argsOf exRep, FirstOrder a := by
+  intro a ha
+  simp only [exRep, argsOf, List.nil_append, List.cons_append, List.mem_cons, List.not_mem_nil, or_false] at ha
+  rcases ha with rfl | rfl <;> exact firstOrder_sound _ (by decide)
+
+/-- `k s s` is outside the class of `addExpr_hof_one_level`: a passed operation is a source -/
+theorem exRep_not_hofArg : ¬ ∀ a ∈ argsOf exRep, HofArg a := by
+  intro h
+  obtain ⟨name, ty, hh⟩ := (h exS (by simp [exRep, argsOf])).head_op rfl
+  cases hh
+
+theorem srcNoInt_empty : SrcNoInt {} := fun _ h => (by cases h)
+
+theorem exRep_flow : flowHO1 0 [] exRep none =
+    { node := 0, next := 5, memo := [(3, 1)], args := [⟨1, some 2⟩, ⟨1, some 4⟩], inner := [] } := by
+  simp only [flowHO1, exRep, argsOf, List.nil_append, List.cons_append, List.foldl_cons, List.foldl_nil, allocNode]
+  have hfun : exS.ty.isFunction = true := rfl
+  have h1 : hofStep { node := 0, next := 1, memo := [], args := [], inner := [] } exS =
+      { node := 0, next := 3, memo := [(3, 1)], args := [⟨1, some 2⟩], inner := [] } := by
+    unfold hofStep
+    simp only [hfun, if_true]
+    simp only [exS, flowFO_src]
+    rfl
+  rw [h1]
+  unfold hofStep
+  simp only [hfun, if_true]
+  simp only [exS, flowFO_src]
+  rfl
+
+/-- the edge `4 → 1` is an edge of the one-level description (`i = 1`, `j = 0`: two positions, one node) -/
+theorem exRep_edge : hofEdges 0 [⟨1, some 2⟩, ⟨1, some 4⟩] (4, 1) :=
+  Or.inr (Or.inr ⟨1, 0, by simp, by simp, by omega, 4, rfl, rfl⟩)
+
 end Tfv.C08P
